@@ -115,7 +115,7 @@ trait EncodingVersion: Sized {
 
     fn seek_to_pid<'a, E: EndiannessRead>(
         deserializer: &mut XTypesDeserializer<'a, E, Self>,
-        pid: u16,
+        pid: u32,
     ) -> XTypesResult<u16>;
 
     /// Serialization Rule (9) & (10)
@@ -196,19 +196,19 @@ impl EncodingVersion for EncodingVersion1 {
 
     fn seek_to_pid<'a, E: EndiannessRead>(
         deserializer: &mut XTypesDeserializer<'a, E, Self>,
-        pid: u16,
+        pid: u32,
     ) -> XTypesResult<u16> {
         loop {
             let current_pid: u16 = deserializer.deserialize_primitive_type()?;
             let current_pid_without_flags = current_pid & 0b00111111_11111111;
             let length: u16 = deserializer.deserialize_primitive_type()?;
             if current_pid_without_flags == PID_SENTINEL && length == 0 {
-                if pid == PID_SENTINEL {
+                if pid == PID_SENTINEL as u32 {
                     return Ok(0);
                 } else {
-                    return Err(PidNotFound(pid));
+                    return Err(PidNotFound(pid as u16));
                 }
-            } else if current_pid_without_flags == pid {
+            } else if current_pid_without_flags as u32 == pid {
                 return Ok(length);
             } else {
                 deserializer.reader.seek(length as usize)?;
@@ -278,7 +278,7 @@ impl EncodingVersion for EncodingVersion1 {
         dynamic_data: &mut DynamicData,
     ) -> XTypesResult<()> {
         deserializer.deserialize_members(dynamic_data)?;
-        Self::seek_to_pid(deserializer, PID_SENTINEL)?;
+        Self::seek_to_pid(deserializer, PID_SENTINEL as u32)?;
         Ok(())
     }
 
@@ -298,7 +298,7 @@ impl EncodingVersion for EncodingVersion1 {
         dynamic_data: &mut DynamicData,
     ) -> XTypesResult<()> {
         Self::align(deserializer, 4)?;
-        let pid = member.get_id() as u16;
+        let pid = member.get_id();
         let orig_pos = deserializer.reader.pos;
         let result = if let Ok(length) = Self::seek_to_pid(deserializer, pid) {
             if length > 0 {
@@ -382,11 +382,12 @@ impl EncodingVersion for EncodingVersion2 {
 
     fn seek_to_pid<'a, E: EndiannessRead>(
         deserializer: &mut XTypesDeserializer<'a, E, Self>,
-        pid: u16,
+        pid: u32,
     ) -> XTypesResult<u16> {
         loop {
             let emheader: u32 = deserializer.deserialize_primitive_type()?;
-            let current_pid = (emheader & 0x0fffffff) as u16;
+            // member ids are 28 bit (hashed ids use all of them)
+            let current_pid = emheader & 0x0fffffff;
             let lc = (emheader & 0b01110000_00000000_00000000_00000000) >> 28;
             let length = match lc {
                 0 => 1,
@@ -505,7 +506,7 @@ impl EncodingVersion for EncodingVersion2 {
         Self::align(deserializer, 4)?;
         // TODO: If LC(C)>=4
         //let _next_int = deserializer.deserialize_primitive_type::<u32>();
-        let pid: u16 = member.get_id() as u16;
+        let pid: u32 = member.get_id() & 0x0fffffff;
         let orig_pos = deserializer.reader.pos;
         let result = if Self::seek_to_pid(deserializer, pid).is_ok() {
             deserializer.deserialize_value(member, dynamic_data)
